@@ -64,9 +64,11 @@ def helper_oracle(res: Result, rng: random.Random, fails: list, n: int):
             flags = rng.choice([0x80, 0xc0, 0x90, 0xd0])
             sid = ("sess;%d" % rng.getrandbits(32)).encode()
             avps = [gen.rfc_wire(263, 0, 0x40, sid)]
-            with_pi = rng.random() < 0.5
-            if with_pi:
-                pi = gen.rfc_wire(280, 0, 0x40, b"proxy.host") + gen.rfc_wire(33, 0, 0x40, b"st")
+            # 0..3 Proxy-Info AVPs (a chain of proxies): the answer carries them all, in the same order (RFC 6733 6.2)
+            pis = [gen.rfc_wire(280, 0, 0x40, b"proxy%d.host" % k) + gen.rfc_wire(33, 0, 0x40, b"st%d" % k)
+                   for k in range(rng.choice([0, 0, 1, 1, 2, 3]))]
+            with_pi = bool(pis)
+            for pi in pis:
                 avps.append(gen.rfc_wire(284, 0, 0x40, pi))
             avps.append(gen.rfc_wire(264, 0, 0x40, b"peer.host"))
             avps.append(gen.rfc_wire(296, 0, 0x40, b"peer.realm"))
@@ -92,9 +94,9 @@ def helper_oracle(res: Result, rng: random.Random, fails: list, n: int):
                     continue
                 have = {(c, v): d for c, v, f, d in got}
                 want = {(264, 0): b"verif.node.example", (296, 0): b"verif.realm.example", (263, 0): sid}
-                if with_pi:
-                    want[(284, 0)] = pi
                 missing = [k for k, d in want.items() if have.get(k) != d]
+                if with_pi and [d for c, v, f, d in got if (c, v) == (284, 0)] != pis:
+                    missing.append((284, 0))
                 typed = hasattr(req, "avp_def")
                 # a typed answer class that does not declare Session-Id / Proxy-Info
                 # (CE, DW, DP: RFC 6733 gives them none) cannot carry them
@@ -110,7 +112,7 @@ def helper_oracle(res: Result, rng: random.Random, fails: list, n: int):
                                   "typed_request": typed, "answer_class": type(ans).__name__,
                                   "real": wire.hex()[:200]})
                 else:
-                    res.nontrivial.add(hash(("helper", who, code, with_pi)))
+                    res.nontrivial.add(hash(("helper", who, code, len(pis))))
     finally:
         node_mod.StoppableThread, peer_mod.StoppableThread = saved
 
